@@ -132,6 +132,14 @@ def run_case(case, ctx):
         r_ab = ctx.call(name + "(a,b)", fn, a, b, **kw)
         r_l2 = ctx.call(name + "([a,b])", fn, [a, b], **kw)
         cmp("two_args_vs_list:" + name, r_ab, r_l2, "%s(a,b) vs %s([a,b])" % (name, name))
+        # the same objects again with reconciliation switched off (valid input): the forms
+        # still agree with each other and with the default
+        r_ab_off = ctx.call(name + "(a,b,Reconcile=False)", fn, a, b, Reconcile=False, **kw)
+        r_l2_off = ctx.call(name + "([a,b],Reconcile=False)", fn, [a, b], Reconcile=False, **kw)
+        cmp("reconcile_off_forms:" + name, r_ab_off, r_ab,
+            "%s(a,b,Reconcile=False) vs %s(a,b)" % (name, name))
+        cmp("reconcile_off_forms:" + name, r_l2_off, r_ab,
+            "%s([a,b],Reconcile=False) vs %s(a,b)" % (name, name))
         if not auto:
             r_i2 = ctx.call(name + "(L,indices=[i,j])", fn, sts, indices=idx[:2], **kw)
             cmp("two_args_vs_indices:" + name, r_ab, r_i2,
